@@ -72,6 +72,9 @@ STUB_CLUSTER = ["zmq (simulated network: atomic multipart, per-link FIFO, no cro
                 "cluster launcher glue of cascade.benchmarks.__main__ (4 lines re-written in the harness)"]
 
 CL_FREE = dict(name="cl-free", harness="cluster", weight=3, runs=dict(quick=1500, thorough=40000), opts=dict(lossy=False, jitter=True))
+CL_FAIR = dict(name="cl-fairloss", harness="cluster", weight=2, runs=dict(quick=600, thorough=20000), opts=dict(lossy=True, fair=True, jitter=True))
+PROPS["C01"]["groups"].append(CL_FAIR)
+PROPS["C03"]["groups"].append(CL_FAIR)
 PROPS["C01"]["groups"].append(CL_FREE)
 PROPS["C02"]["groups"].append(CL_FREE)
 PROPS["C03"]["groups"].append(CL_FREE)
@@ -112,6 +115,7 @@ PROPS["C05"] = dict(
 )
 
 PROPS["C05"]["groups"] += [
+    dict(name="kill-lossy", harness="cluster", weight=2, runs=dict(quick=500, thorough=15000), opts=dict(faults=["kill_worker", "kill_data", "task_raise", "task_exit0"], lossy=True, fair=True)),
     dict(name="enum-kill", harness="cluster", weight=4, runs=dict(quick=64, thorough=4000), opts=dict(lossy=False, jitter=True, nmax=6),
          enumerate=dict(kinds=["kill_worker", "kill_data", "kill_shm", "task"], quick=60, thorough=None)),
 ]
@@ -173,6 +177,8 @@ _SHM_GROUPS = [
     dict(name="stale", harness="shmstore", weight=2, runs=dict(quick=800, thorough=20000), opts=dict(stale=True)),
     dict(name="big", harness="shmstore", weight=2, runs=dict(quick=600, thorough=15000), opts=dict(big=True)),
     dict(name="faults", harness="shmstore", weight=3, runs=dict(quick=1200, thorough=30000), opts=dict(faults=True, stale=True)),
+    dict(name="enum-disk", harness="shmstore", weight=3, runs=dict(quick=96, thorough=4000), opts=dict(),
+         enumerate=dict(kinds=["disk"], quick=30, thorough=None)),
 ]
 PROPS["C08"] = dict(
     level="exploration", budget=dict(quick=90, thorough=900), groups=_SHM_GROUPS,
